@@ -200,6 +200,11 @@ type Stats struct {
 	Len      [rF + 1]int // matches per match length (3..60)
 	Rebuilds int         // adaptive-tree rebuilds (root frequency reached 0x8000)
 	LastLen  int         // length of the last symbol decoded (1 for a literal)
+	// Undefined counts bytes that a match copied from a window position which neither the space
+	// pre-fill (positions 0..N-F-1) nor the decoded data has written yet (positions N-F..N-1 during
+	// the first F output bytes). LZHUF.C leaves that region uninitialised, so the format does not
+	// define what such a stream decodes to; this decoder yields zero bytes there.
+	Undefined int
 }
 
 // Decode decodes a raw LZHUF stream (4 byte LE size + data). It returns the
@@ -279,7 +284,11 @@ func decode(in []byte, st *Stats) (out []byte, consumed int, err error) {
 			return out, 4 + bi.pos, ErrOverrun
 		}
 		for k := 0; k < l; k++ {
-			ch := text[(src+k)&(rN-1)]
+			idx := (src + k) & (rN - 1)
+			if st != nil && idx >= rN-rF && len(out) <= idx-(rN-rF) {
+				st.Undefined++
+			}
+			ch := text[idx]
 			out = append(out, ch)
 			text[r] = ch
 			r = (r + 1) & (rN - 1)
@@ -516,6 +525,49 @@ func Encode(in []byte) []byte {
 		e.out.WriteByte(byte(e.putbuf >> 8))
 	}
 	return e.out.Bytes()
+}
+
+// Sym is one LZHUF symbol for EncodeSyms: a literal (Len == 0) or a match of Len bytes (3..60)
+// starting Pos+1 bytes behind the write position (Pos 0..2047).
+type Sym struct {
+	Lit byte
+	Len int
+	Pos int
+}
+
+// EncodeSyms writes a raw LZHUF stream (4 byte LE size + data) that carries exactly the given
+// symbols, with the given value in the size field. It produces streams that are valid for the
+// canonical decoder but that the canonical encoder would never choose (arbitrary match positions,
+// overlaps, references into the space pre-fill), and hostile ones (sizes that disagree).
+func EncodeSyms(size int32, syms []Sym) []byte {
+	e := &enc{}
+	var hdr [4]byte
+	binary.LittleEndian.PutUint32(hdr[:], uint32(size))
+	e.out.Write(hdr[:])
+	e.h.start()
+	for _, s := range syms {
+		if s.Len == 0 {
+			e.encodeChar(int(s.Lit))
+			continue
+		}
+		if s.Len <= rThresh || s.Len > rF || s.Pos < 0 || s.Pos >= rN {
+			panic("lzref: bad symbol")
+		}
+		e.encodeChar(255 - rThresh + s.Len)
+		e.encodePos(s.Pos)
+	}
+	if e.putlen != 0 {
+		e.out.WriteByte(byte(e.putbuf >> 8))
+	}
+	return e.out.Bytes()
+}
+
+// EncodeSymsB2 is EncodeSyms with the B2 checksum in front.
+func EncodeSymsB2(size int32, syms []Sym) []byte {
+	raw := EncodeSyms(size, syms)
+	out := make([]byte, 2, 2+len(raw))
+	binary.LittleEndian.PutUint16(out, CRC(raw))
+	return append(out, raw...)
 }
 
 // CRC-16/XMODEM, bitwise (poly 0x1021, init 0, no reflection)
